@@ -5,6 +5,8 @@
 //! ty 3 String: bytes as base-256 digits after a leading 1; ty 4 GenericArray<u8,U2>: 256x+y;
 //! ty 5 Kv {k, v}: 256k+v -- == compares both fields, the ordering only the key;
 //! ty 6 i8: the value (a ONE-BYTE type whose order is not the order of its bytes).
+//! ty 7 Wb(u8): the value; one byte, no padding, no drop glue -- and a hand-written Hash that is NOT "my own
+//! bytes" (write_u8(x); write_u8(0xAA)): hashing the array's memory instead of its elements shows.
 //!
 //! pair case    0 ty n a.. b..
 //!   OBS eq ne pcmp lt le gt ge F1  cmp hmA hmB hmShort hmLong btA btB btShort btLong F2
@@ -17,6 +19,7 @@
 use generic_array::typenum::{U0, U1, U15, U16, U17, U2, U3, U31, U32, U33, U4, U5, U64, U65, U8};
 use generic_array::{ArrayLength, GenericArray};
 use harness::*;
+type U1025 = generic_array::typenum::Sum<generic_array::typenum::U1024, U1>;
 use std::borrow::{Borrow, BorrowMut};
 use std::cmp::Ordering;
 use std::collections::hash_map::DefaultHasher;
@@ -202,6 +205,23 @@ impl Elem for Kv {
     }
     fn same(&self, o: &Self) -> bool {
         self.k == o.k && self.v == o.v
+    }
+}
+/// "scalar-like" (size 1, alignment 1, no drop glue) with a hand-written Hash that feeds two calls per value
+#[derive(Clone, Copy, Debug, PartialEq, Eq, PartialOrd, Ord)]
+struct Wb(u8);
+impl Hash for Wb {
+    fn hash<H: Hasher>(&self, state: &mut H) {
+        state.write_u8(self.0);
+        state.write_u8(0xAA);
+    }
+}
+impl Elem for Wb {
+    fn dec(c: i128) -> Self {
+        Wb(c as u8)
+    }
+    fn same(&self, o: &Self) -> bool {
+        self == o
     }
 }
 type Nest = GenericArray<u8, U2>;
@@ -450,7 +470,7 @@ macro_rules! with_n {
     ($n:expr, |$N:ident| $body:expr) => {
         dispatch_len!(
             $n,
-            [U0, U1, U2, U3, U4, U5, U8, U15, U16, U17, U31, U32, U33, U64, U65],
+            [U0, U1, U2, U3, U4, U5, U8, U15, U16, U17, U31, U32, U33, U64, U65, U1025],
             |$N| $body,
             panic!("length {} not monomorphised", $n)
         )
@@ -504,6 +524,7 @@ fn run_case(case: &[i128]) -> (Vec<i128>, Vec<String>) {
             4 => pair_all::<Nest>(a, b, &mut out, &mut orc),
             5 => pair_all::<Kv>(a, b, &mut out, &mut orc),
             6 => pair_all::<i8>(a, b, &mut out, &mut orc),
+            7 => pair_all::<Wb>(a, b, &mut out, &mut orc),
             _ => panic!("bad type {}", ty),
         }
     } else {
@@ -525,6 +546,7 @@ fn run_case(case: &[i128]) -> (Vec<i128>, Vec<String>) {
             4 => single_all::<Nest>(a, &mut out, &mut orc),
             5 => single_all::<Kv>(a, &mut out, &mut orc),
             6 => single_all::<i8>(a, &mut out, &mut orc),
+            7 => single_all::<Wb>(a, &mut out, &mut orc),
             _ => panic!("bad type {}", ty),
         }
     }
@@ -556,6 +578,7 @@ fn leaves_of(ty: i128, code: i128) -> Vec<(i128, [String; NF])> {
         3 => <String as Elem>::leaves(code),
         4 => <Nest as Elem>::leaves(code),
         6 => <i8 as Elem>::leaves(code),
+        7 => <Wb as Elem>::leaves(code),
         _ => <Kv as Elem>::leaves(code),
     }
 }
@@ -599,6 +622,7 @@ fn alphabet(ty: i128) -> Vec<i128> {
         4 => vec![0, 1, 256, 255 * 256 + 255, 7 * 256],
         // i8: mixed signs (as bytes: 0xFF 0x00 0x01 0x80 0x7F)
         6 => vec![-1, 0, 1, -128, 127],
+        7 => vec![0, 7, 255, 170, 1],
         // Kv: {0,0} {0,1} {1,0} {1,5} {7,0}: same key with different values, different keys
         _ => vec![0, 1, 256, 256 + 5, 7 * 256],
     }
@@ -629,7 +653,7 @@ fn main() {
         return;
     }
     let thorough = a.tier == "thorough";
-    for ty in 0..7i128 {
+    for ty in 0..8i128 {
         let alpha = alphabet(ty);
         // exhaustive pairs: (length, letters)
         let mut scopes: Vec<(usize, usize)> = vec![];
@@ -667,7 +691,7 @@ fn main() {
     // seeded larger lengths
     let mut rng = Rng::new(a.seed);
     let (npairs, nsingles) = if thorough { (2000, 200) } else { (60, 16) };
-    for ty in 0..7i128 {
+    for ty in 0..8i128 {
         let alpha = alphabet(ty);
         for n in [5usize, 8, 15, 16, 17, 31, 32, 33, 64, 65] {
             for _ in 0..npairs {
@@ -712,6 +736,19 @@ fn main() {
                 do_case(single_case(ty, &x));
             }
         }
+    }
+    // more than 1024 elements: every one of them is compared, hashed and shown
+    for ty in [0i128, 3, 7] {
+        let alpha = alphabet(ty);
+        let n = 1025usize;
+        let x: Vec<i128> = (0..n).map(|_| alpha[rng.below(alpha.len() as u64) as usize]).collect();
+        dist(&format!("single.ty{}.N{}", ty, n));
+        do_case(single_case(ty, &x));
+        let mut y = x.clone();
+        y[n - 1] = alpha[(alpha.iter().position(|l| *l == x[n - 1]).unwrap() + 1) % alpha.len()];
+        dist(&format!("pair.ty{}.N{}", ty, n));
+        do_case(pair_case(ty, &x, &y));
+        do_case(pair_case(ty, &x, &x));
     }
     flush_dist();
 }
